@@ -147,6 +147,28 @@ def gen_case(rnd, idx):
         else:
             main.append('include "nowhere.inc";')
         main.append(f"int m{len(main)} = {len(main)};")
+    if rnd.random() < 0.15:
+        # a directory whose name is NOT valid UTF-8 (`@FF@` = the raw byte 0xFF, realised by the harness): paths are
+        # byte strings on Unix, and one such entry in a search list or in QASM3_PATH must neither be skipped nor
+        # disable the other entries.  The main text keeps the old name (it must stay UTF-8), so only list-driven
+        # resolution reaches the directory.
+        if rnd.random() < 0.7:
+            d = rnd.choice(DIRS)
+            nd = rnd.choice([d + "@FF@", "@FF@" + d, d[0] + "@FF@" + d[1:]])
+            files = {(nd + k[len(d):] if k.startswith(d + "/") else k): v for k, v in files.items()}
+            ren = lambda l: None if l is None else [nd if x == d else (f"{root}/{nd}" if x == f"{root}/{d}" else x) for x in l]
+            search, env = ren(search), ren(env)
+            if not any(nd in x for x in (search or []) + (env or [])):
+                if search is None:
+                    env = [nd] + (env or [])
+                else:
+                    search = [nd] + search
+        else:
+            # an entry that names no directory at all, somewhere in the list that is consulted
+            lst = search if search is not None else env
+            if lst is None:
+                env = lst = [rnd.choice(DIRS)]
+            lst.insert(rnd.randint(0, len(lst)), rnd.choice(["nx@FF@", f"{root}/@FF@", "@FF@@FF@"]))
     return {"id": cid, "files": files, "main": "\n".join(main) + "\n", "search": search, "env": env, "root": root}
 
 
